@@ -1018,7 +1018,10 @@ def _runs_empty_name(case, _failure):
 
 # only used if the defect is recorded as a known finding instead of being repaired
 # (signature C19/own_dir/not-below-root/name=empty); cases without such a task stay strict
-KNOWN_PREDICATES = {'runtask_with_empty_name': _runs_empty_name}
+KNOWN_PREDICATES = {'runtask_with_empty_name': _runs_empty_name,
+                    # signature C19/spurious_failure/code-task
+                    'logdir_race_forced': lambda case, _failure: any(
+                        rnd.get('race') == 'logdir' for rnd in case['rounds'])}
 
 
 MANIFEST = {
